@@ -330,10 +330,12 @@ def rule_gadgets(repo, rule):
     cz = lc.methods["check_zero"]
     env = {}
     hints = {}
+    from ..flatten import resolve_locals as _rlz
     for a in cz.node.body:
-        if isinstance(a, ast.Assign) and isinstance(a.value, ast.Call) and norm(a.value.func) == "PrivVal":
+        if isinstance(a, ast.Assign) and isinstance(a.value, ast.Call) and norm(a.value.func).split(".")[-1] in ("PrivVal", "PrivValBool") \
+                and a.value.args:
             env[norm(a.targets[0])] = P.sym(norm(a.targets[0]))
-            hints[norm(a.targets[0])] = norm(a.value.args[0])
+            hints[norm(a.targets[0])] = norm(_rlz(cz.node, a.value.args[0]))
     env[cz.params[0]] = P.sym("x")
     env["LinComb.ONE_SAFE"] = P.const(1)
     env["LinComb.ONE"] = P.const(1)
@@ -344,7 +346,12 @@ def rule_gadgets(repo, rule):
         ps = [poly_of(x, env, strict=True) for x in c.args[:3]]
         if None not in ps:
             polys.append((c, ps[0] * ps[1] - ps[2]))
-    ret = [k for k, h in hints.items() if "== 0" in h and "1 if" in h]
+    # the result witness is the one the gadget returns (possibly wrapped); the other one is the inverse witness
+    rnames = {x.id for r_ in ast.walk(cz.node) if isinstance(r_, ast.Return) and r_.value is not None for x in ast.walk(r_.value)
+              if isinstance(x, ast.Name)}
+    ret = [k for k in hints if k in rnames]
+    if len(ret) != 1:
+        ret = [k for k, h in hints.items() if h.startswith("1 if") and "== 0" in h]
     wit = [k for k in hints if k not in ret]
     want = None
     if len(ret) == 1 and len(wit) == 1:
@@ -360,7 +367,7 @@ def rule_gadgets(repo, rule):
                 rule.violation(cz.loc(), cz.fq, "constraints: %s" % [str(p) for p in got], "zero test lacks the constraint %s: the "
                                "result is not forced to [x == 0]" % label, "check_zero/%s" % label.replace(" ", ""))
         rets = [n for n in ast.walk(cz.node) if isinstance(n, ast.Return)]
-        if rets and ("(%s," % ret[0]) in norm(rets[0].value).replace(" ", "") + ",":
+        if rets and (("(%s," % ret[0]) in norm(rets[0].value).replace(" ", "") + "," or norm(rets[0].value) == ret[0]):
             rule.ok(cz.loc(rets[0]), cz.fq, norm(rets[0].value), "returns the constrained result")
         else:
             rule.violation(cz.loc(), cz.fq, norm(rets[0].value) if rets else "", "does not return the constrained result", "check_zero/ret")
